@@ -512,17 +512,30 @@ class PiecewiseConstantCoalescentGrid(AbstractCoalescentDistribution):
 
         return node_mask_sorted, lchoose2, durations
 
-    def sufficient_statistics(self, node_heights: torch.Tensor):
-        node_mask_sorted, lchoose2, durations = self._sorted_terms(node_heights)
-        groups = torch.tensor_split(
-            lchoose2 * durations, torch.where(node_mask_sorted == 0)[0]
-        )
+    @staticmethod
+    def _grouped_statistics(node_mask_sorted, terms):
+        indices = torch.where(node_mask_sorted == 0)[0]
+        groups = torch.tensor_split(terms, indices)
         sufficient_statistics = torch.tensor(list(map(torch.sum, groups)))
-        groups = torch.tensor_split(
-            node_mask_sorted == -1, torch.where(node_mask_sorted == 0)[0]
-        )
+        groups = torch.tensor_split(node_mask_sorted == -1, indices)
         coalescent_counts = torch.tensor(list(map(torch.sum, groups)))
         return sufficient_statistics, coalescent_counts
+
+    def sufficient_statistics(self, node_heights: torch.Tensor):
+        """Returns sufficient statistics and number of coalescent events
+        per grid interval.
+
+        This method is used by the block updating MCMC operator.
+        """
+        node_mask_sorted, lchoose2, durations = self._sorted_terms(node_heights)
+        terms = lchoose2 * durations
+        if node_mask_sorted.dim() > 1:
+            statistics = [
+                self._grouped_statistics(node_mask_sorted[i], terms[i])
+                for i in range(node_mask_sorted.shape[-2])
+            ]
+            return tuple(map(torch.stack, zip(*statistics)))
+        return self._grouped_statistics(node_mask_sorted, terms)
 
     def log_prob(self, node_heights: torch.Tensor) -> torch.Tensor:
         batch_shape = max(node_heights.shape, self.theta.shape, key=len)[:-1]
